@@ -132,7 +132,11 @@ def gen_reduce_case(
             alphabet = [False, True]
     if func in ("argmax", "argmin"):
         nan_p = 0.0  # quantifier: arg* only on NaN-free groups
-    vals = gen_values(tape, total, dtype=dtype, nan_p=nan_p, alphabet=alphabet).reshape(shape)
+    if dt.kind in "mM":
+        iv = gen_values(tape, total, dtype="i8", alphabet=[0, 1, 2, 3, 5, 8]).reshape(shape) * (86400 * 10**9)
+        vals = iv.astype("int64").view(dt)
+    else:
+        vals = gen_values(tape, total, dtype=dtype, nan_p=nan_p, alphabet=alphabet).reshape(shape)
     if func in ("nanargmax", "nanargmin") and dt.kind == "f":
         # quantifier: nanarg* only on groups that are not entirely NaN (per batch slice)
         v2 = vals.reshape(-1, n)
